@@ -16,10 +16,11 @@ import (
 )
 
 const (
-	stepDuringFault = 0 // concurrent traffic while the fault is injected
-	stepQuietDown   = 1 // quiescent reads, one store down / paused
-	stepHealed      = 2 // concurrent traffic while the store rejoins
-	stepQuietHealed = 3 // quiescent reads, all stores up
+	stepDuringFault = 0  // concurrent traffic while the fault is injected
+	stepQuietDown   = 1  // quiescent reads, one store down / paused
+	stepHealed      = 2  // concurrent traffic while the store rejoins
+	stepQuietHealed = 3  // quiescent reads, all stores up
+	stepOpener      = -1 // (writes only) the first write into a shard group that did not exist before
 )
 
 type badRead struct {
@@ -147,7 +148,7 @@ func analyse(kops []op, tl *timeline, phases []phaseInfo) analysis {
 	if quiet == 0 && ph != nil {
 		inWindow := true
 		for _, b := range bad {
-			if b.R.Phase != first.R.Phase || b.R.Step != stepDuringFault || b.R.Call < ph.FaultTick[0] {
+			if b.R.Phase != first.R.Phase || b.R.Step != stepDuringFault || b.R.Ret < ph.FaultTick[0] {
 				inWindow = false
 			}
 			if mw := ws[b.Required]; mw.Call > ph.FaultTick[1] {
@@ -167,6 +168,25 @@ func analyse(kops []op, tl *timeline, phases []phaseInfo) analysis {
 			serving[b.Serving] = true
 		}
 	}
+	if len(serving) == 0 {
+		// no wrong quiescent read: the master seen when the wrong read returned, unless that is
+		// the store that was down at that moment (the master change had not been sampled yet)
+		for i := range bad {
+			b := &bad[i]
+			m := tl.masterAt(b.R.Ret)
+			if b.R.Phase >= 1 && b.R.Phase <= len(phases) {
+				p := phases[b.R.Phase-1]
+				if m == p.Victim-1 && b.R.Step <= stepQuietDown && b.R.Ret >= p.FaultTick[0] {
+					continue
+				}
+			}
+			if m >= 0 {
+				b.Serving = m
+				serving[m] = true
+			}
+		}
+	}
+	quietOnly := quiet > 0
 	servingDesc := "unknown"
 	descs := map[string]bool{}
 	var stores []int
@@ -179,11 +199,11 @@ func analyse(kops []op, tl *timeline, phases []phaseInfo) analysis {
 		// it hit this store and the read came after the heal)
 		var hist []string
 		for _, b := range bad {
-			if (b.R.Step == stepQuietDown || b.R.Step == stepQuietHealed) && b.Serving == sv {
+			if (!quietOnly || b.R.Step == stepQuietDown || b.R.Step == stepQuietHealed) && b.Serving == sv {
 				if b.R.Phase >= 1 && b.R.Phase <= len(phases) {
 					p := phases[b.R.Phase-1]
 					hist = append(hist, p.StoreHistory[sv]...)
-					if p.Victim-1 == sv && b.R.Step == stepQuietHealed {
+					if p.Victim-1 == sv && b.R.Step >= stepHealed {
 						hist = append(hist, p.EventOfVictim)
 					}
 				}
@@ -204,6 +224,17 @@ func analyse(kops []op, tl *timeline, phases []phaseInfo) analysis {
 		servingDesc = strings.Join(l, "+")
 	}
 	persistence := "transient"
+	if quiet == 0 && lastBad.Required+1 < len(ws) {
+		// did the wrong answers end because the key was written again?
+		for _, r := range rs {
+			if r.Call > lastBad.R.Ret {
+				if i, ok := idx[r.Val]; ok && i > lastBad.Required {
+					persistence = "wrong-until-overwritten"
+				}
+				break
+			}
+		}
+	}
 	if quiet > 0 {
 		persistence = "wrong-in-quiescent-reads"
 		if goodAfter == 0 {
@@ -214,7 +245,28 @@ func analyse(kops []op, tl *timeline, phases []phaseInfo) analysis {
 	if strings.HasSuffix(first.R.Key.Series, fmt.Sprintf("w=%d", coldWriter)) {
 		shard = "idle-shard"
 	}
-	sig := fmt.Sprintf("acknowledged-write-lost|serving-replica=%s|lost-key-in=%s|%s|%s|first-seen-after-fault=%s-on-%s", servingDesc, shard, persistence, kind, faultName, victim)
+	var sig string
+	if w.Phase == 0 && w.Step == stepOpener {
+		// the missed write is an opener: the first write into a shard group that did not exist
+		// before. Was the replica that lacks it the master when it was written?
+		was := "follower"
+		m := tl.masterAt(w.Call)
+		if m < 0 {
+			was = "unknown"
+		}
+		for sv := range serving {
+			if sv == m {
+				was = "master"
+			}
+		}
+		if len(serving) == 0 {
+			was = "unknown"
+		}
+		detail["master_when_the_missed_write_was_made"] = m + 1
+		sig = fmt.Sprintf("acknowledged-write-lost|missed-write=first-write-into-a-new-shard-group|%s|served-by-replica-that-was-%s-at-the-write|serving-replica=%s|lost-key-in=%s|%s|first-seen-after-fault=%s-on-%s", kind, was, servingDesc, shard, persistence, faultName, victim)
+	} else {
+		sig = fmt.Sprintf("acknowledged-write-lost|missed-write=later-write|serving-replica=%s|lost-key-in=%s|%s|%s|first-seen-after-fault=%s-on-%s", servingDesc, shard, persistence, kind, faultName, victim)
+	}
 	return analysis{Sig: sig, What: what + fmt.Sprintf("; %d wrong reads (%d of them quiescent), %d reads after the last wrong one; serving replica: %s", len(bad), quiet, goodAfter, servingDesc), Phase: first.R.Phase, Bad: len(bad), Detail: detail}
 }
 
